@@ -37,7 +37,7 @@ for d in /verif/seeded/C*/ /verif/seeded/own-*/; do
   fi
   for id in $ids; do
     $mx/target/release/bppmc check $id --tier quick > $mx/last.log 2>&1; code=$?
-    if [ -n "$nd" ] && [ $code -eq 0 ] && echo " C02 C05 C13 C14 C16 C20 " | grep -q " $id "; then
+    if [ -n "$nd" ] && [ $code -eq 0 ] && echo " C02 C04 C05 C06 C07 C08 C09 C10 C11 C12 C13 C14 C15 C16 C17 C19 C20 " | grep -q " $id "; then
       BPPMC_PROFILE=nodebug $mx/target/nodebug/bppmc check $id --tier quick > $mx/last-nd.log 2>&1; code=$?
     fi
     line="$line $id=$code"
